@@ -11,7 +11,7 @@ import corechecks
 
 THEOREMS = ['C12_phaseMonotone', 'C12_phaseMonotone_exec', 'C12_appendOnly', 'C12_nonempty', 'C12_end', 'C12_storedOnly', 'C12_view', 'C12_toggle', 'C12_roundTrip']
 MODULE = [('NautilusVerif.Properties.C12', THEOREMS), ('NautilusVerif.Properties.CoreRun', ['Run_phase', 'C02_run', 'C12_run_frozen']), ('NautilusVerif.Properties.C05Tie', ['C05_run_skeleton']),
-          ('NautilusVerif.Properties.CoreTie', ['Core_tie_discardSetter', 'Core_tie_addSamples'])]
+          *common.core_tie(['discardSetter', 'addSamples'])]
 FILES = ['nautilus/sampler.py']
 INVARIANTS = ['shape', 'counts', 'aligned', 'run']
 
